@@ -1207,9 +1207,11 @@ def run(ck):
         'circuit.py by exact dump correspondence and NNet.wf / NNet.forkIns1 are evaluated on every real dump',
         'elim_sem is stated for every consistent labelling (no uniqueness needed); that LogicSim computes a consistent labelling is C01',
         'substitute: ports, state elements (up to order; names and order in the regular same-class case), pin-by-pin wiring and '
-        'the equations outside the cell are theorems about the model; that the copied implementation computes the cell function '
-        '(substitute_sem) and the function after resolve_tlib_cells (modelled as a fold of substitute; resolve_ports proved) '
-        'are validated by simulation before/after, not proved',
+        'the equations outside the cell are theorems about the model; substitute_sem / substitute_sem_removing / resolve_sem (the copied '
+        'implementation has the relational meaning of the cell) are theorems about the model under decidable hypotheses (designated '
+        'cell that is no port, no connected-but-ignored input pin, implOKB; resolve: no substitution removes anything) - the harness '
+        'counts the real cases inside these hypotheses (driver substok / resolveok) and checks the well-formedness of the real '
+        'result there; outside them the function after substitute / resolve_tlib_cells is validated by simulation before/after only',
         'the function is observed through the real LogicSim(m=2) (C01); reference of a circuit with library cells = the same '
         'circuit flattened by an independent inliner (implementation ports become forks, unconnected inputs read 0)',
         'object identity of nodes = (name, class) as in Node.__eq__; dictionary order of forks is an explicit input of the model']
